@@ -44,7 +44,7 @@ def build(tier, seed):
                 'x container {ndarray,list,tuple} x min_dt_ratio %s (+ a descending list on the object path); non-trivial = record x dt' % (
                     L, list(DTS), [list(p) for p in PLISTS], list(XIS), list(MDR)),
         'bounds': {'alphabet': [-1, 0, 2], 'max_len': L, 'dt': DTS, 'period_lists_in_dt': PLISTS, 'xi': XIS, 'min_dt_ratio': MDR},
-        'required_classes': ['T<6dt', 'T>=6dt', 'T=0', 'container-list', 'container-tuple', 'container-int', 'refined-f>1', 'unrefined-f=1',
+        'required_classes': ['T<6dt', 'T>=6dt', 'T=0', 'container-list', 'container-tuple', 'container-int', 'object-after-edit', 'refined-f>1', 'unrefined-f=1',
                              'xi=0-true-equals-pseudo', 'energy>0', 'object-descending-periods'],
         'assumptions': ['reference peaks from the 40-digit exact response (mcheck/refs/sdof_ref.py) with the tolerance of C01',
                         'object path (e): which integer refinement factor float rounding of dt/target lands on (f or f+1) and whether the '
@@ -303,6 +303,33 @@ def run_case(case):
                             r.fail('e.object-lazy', base, 'lazy s_d/s_v/s_a differ from gen_response_spectrum(xi=0.05, min_dt_ratio=4)', observed=g1, expected=g2)
                     except Exception as e:
                         r.fail('e.object-lazy', base, 'malformed: %s' % e)
+    # ---- e (continued): the same object after its record has been replaced / edited: the spectra are those of the new record
+    for plist in (PLISTS[1], PLISTS[5]):
+        periods = np.array([float(fr(p) * fr(dts)) for p in plist])
+        for mname, mut in (('reset_values', lambda s_: s_.reset_values(a[::-1] * 2.5)), ('add_constant', lambda s_: s_.add_constant(0.75))):
+            sub = {'rec': rec, 'dt': dts, 'periods_dt': list(plist), 'after': mname}
+
+            def reused():
+                s_ = eqsig.AccSignal(a, dt, response_times=periods.copy())
+                first = np.array(s_.s_d)
+                mut(s_)
+                return first, s_.s_d, s_.s_v, s_.s_a
+
+            def fresh():
+                s_ = eqsig.AccSignal(a, dt, response_times=periods.copy())
+                mut(s_)
+                f_ = eqsig.AccSignal(np.array(s_.values), dt, response_times=periods.copy())
+                return f_.s_d, f_.s_v, f_.s_a
+            ok1, g = r.call('e.object-after-edit', sub, reused)
+            ok2, w_ = r.call('e.object-after-edit', sub, fresh)
+            if ok1 and ok2:
+                r.cls('object-after-edit')
+                r.n_cmp += 1
+                try:
+                    if not all(np.asarray(x).shape == np.asarray(y).shape and np.allclose(x, y, rtol=1e-9, atol=0) for x, y in zip(g[1:], w_)):
+                        r.fail('e.object-after-edit', sub, 's_d/s_v/s_a read after %s are not those of the edited record' % mname, observed=g[1:], expected=w_)
+                except Exception as e:
+                    r.fail('e.object-after-edit', sub, 'malformed: %s' % e)
     # ---- d (continued): integer-typed period containers (python ints / integer ndarray, with and without a leading 0) give the
     # same spectra as the same periods given as floats - array functions and object path
     for ints in ((0, 1, 3), (1, 3), (0, 2)):
